@@ -103,6 +103,9 @@ pub struct Trace {
 pub struct DfsStats {
     pub executions: u64,
     pub complete: bool,
+    /// runs whose trace did not reproduce their prefix (a source of nondeterminism the harness
+    /// does not own); their subtrees are not explored and the run must not be called exhaustive
+    pub diverged: u64,
 }
 
 /// Deviation-bounded exploration.  `run(prefix)` must replay `prefix` (a list of
@@ -113,7 +116,7 @@ pub fn dfs_deviations(
     mut run: impl FnMut(&[usize]) -> Trace,
     mut stop: impl FnMut() -> bool,
 ) -> DfsStats {
-    let mut stats = DfsStats { executions: 0, complete: true };
+    let mut stats = DfsStats { executions: 0, complete: true, diverged: 0 };
     // stack of (prefix, deviations used in prefix)
     let mut stack: Vec<(Vec<usize>, usize)> = vec![(vec![], 0)];
     while let Some((prefix, used)) = stack.pop() {
@@ -123,8 +126,10 @@ pub fn dfs_deviations(
         }
         let t = run(&prefix);
         stats.executions += 1;
-        assert!(t.choices.len() >= prefix.len(), "replay diverged: trace shorter than prefix");
-        assert!(t.choices[..prefix.len()] == prefix[..], "replay diverged from prefix");
+        if t.choices.len() < prefix.len() || t.choices[..prefix.len()] != prefix[..] {
+            stats.diverged += 1;
+            continue;
+        }
         if used >= bound {
             continue;
         }
